@@ -8,11 +8,13 @@ def run(rep, tier, seed):
                 "Exists+Open under every spelling; file-system: every stack of <=2 / <=3 loaders over all 33 well-formed trees "
                 "(file/dir/nested dir/same name as file in one loader and dir in another), queried at 9 clean absolute paths, "
                 "each run with OS, http and alternating loaders (and embed.FS for the fixture tree), multi loader built with "
-                "NewLoader+AddLoaders; non-trivial: at least one mutation / every stack; distinct by vector. traces: random "
+                "NewLoader+AddLoaders; multi over 2 / 3 in-memory members that are edited between look-ups: every history of <=4 / <=5 "
+                "Set/Delete/Exists/Open over two paths (JetMulti); non-trivial: at least one mutation / every stack; distinct by vector. traces: random "
                 "InMemLoader histories with spellings of <=5 segments validated by Trace_LoaderMem")
     exe = build_harness()
     for mod, cfg, cmd in (("MC_LoaderMem.tla", "MC_LoaderMem_%s.cfg" % tier, "replay-C19mem"),
-                          ("JetLoaderFS.tla", "MC_LoaderFS_%s.cfg" % tier, "replay-C19fs")):
+                          ("JetLoaderFS.tla", "MC_LoaderFS_%s.cfg" % tier, "replay-C19fs"),
+                          ("JetMulti.tla", "MC_Multi_%s.cfg" % tier, "replay-C19multi")):
         vec = os.path.join(wd, cmd + ".ndjson")
         with open(vec, "w") as sink:
             r = run_tlc(wd, mod, cfg, workers=8, heap="4g", timeout=2400, keep_vecs=False, vec_sink=sink)
